@@ -10,24 +10,18 @@ open Goml.Dce (keys lookup_cons_self lookup_cons_ne lookup_none_of_not_key key_o
 
 attribute [local irreducible] Goml.GoCompile.vn Goml.GoCompile.gid Goml.GoCompile.rn
 
-theorem toG_int {env : Env} {η : Hp} {n s x gv} (h : toGV env η (.int n s x) = some gv) : gv = .int n s x := by
-  rw [toGV] at h; injection h with h; exact h.symm
-theorem toG_bool {env : Env} {η : Hp} {b gv} (h : toGV env η (.bool b) = some gv) : gv = .bool b := by
-  rw [toGV] at h; injection h with h; exact h.symm
+theorem toG_int {env : Env} {η : Hp} {n s x t gv} (h : VRel env η (.int n s x) t gv) : gv = .int n s x := by
+  simpa [VRel] using h
+theorem toG_bool {env : Env} {η : Hp} {b t gv} (h : VRel env η (.bool b) t gv) : gv = .bool b := by
+  simpa [VRel] using h
+
+/-- on values of scalar type the image is `C01.toG` -/
+theorem toGV_scalar {env : Env} {η : Hp} {v : Val} {t : Ty} {g : GVal} (h : HasTy env η v t) (hs : scalarTy t = true)
+    (hg : VRel env η v t g) : toG v = some g := (VRel_scalar h hs).mp hg
 
 /-- the shape of a compiled call of the fragment: an ordinary Go call of `vn name` -/
-theorem toGVs_length {env : Env} {η : Hp} : ∀ {vs : List Val} {gs : List GVal}, toGVs env η vs = some gs → gs.length = vs.length
-  | [], gs, h => by simp [toGVs] at h; subst h; rfl
-  | v :: vs, gs, h => by
-    simp only [toGVs] at h
-    cases h1 : toGV env η v with
-    | none => rw [h1] at h; simp at h
-    | some g =>
-      cases h2 : toGVs env η vs with
-      | none => rw [h1, h2] at h; simp at h
-      | some gs' =>
-        rw [h1, h2] at h; simp only [Option.some.injEq] at h; subst h
-        simp [toGVs_length h2]
+theorem toGVs_length {env : Env} {η : Hp} {vs : List Val} {ts : List Ty} {gs : List GVal} (h : VRels env η vs ts gs) :
+    gs.length = vs.length := (VRels_length h).1.symm
 
 theorem hasTys_length {env : Env} {η : Hp} : ∀ {vs : List Val} {tys : List Ty}, HasTys env η vs tys → vs.length = tys.length
   | [], [], _ => rfl
@@ -66,9 +60,9 @@ theorem goCallee_plain {bs : List String} {name : String} {fty : Ty} {args : Lis
     (hsp : specialCallees.contains name = false)
     (hrn : rn name = name) : goCallee bs (.var name fty) args ty = [vn name] := by
   simp only [specialCallees, List.contains_cons, List.contains_nil, Bool.or_false, Bool.or_eq_false_iff, beq_eq_false_iff_ne] at hsp
-  obtain ⟨h1, h2, h3, h4, h5, _⟩ := hsp
+  obtain ⟨h1, h2, h3, h4, h5, h6, h7, h8, h9, _⟩ := hsp
   have hbs' : ¬ name ∈ bs := by simpa using hbs
-  simp [goCallee, hbs', hrn, h1, h2, h3, h4, h5]
+  simp [goCallee, hbs', hrn, h1, h2, h3, h4, h5, h6, h7, h8, h9]
 
 theorem compileCall_frag {env : Env} {file : AFile} {G : List String} {Γ : Ctx} {name : String} {fty : Ty}
     {args : List Imm} {ty : Ty} (h : callOK env file G Γ (.var name fty) args ty = true) :
@@ -159,8 +153,8 @@ theorem sem_call_fn {P : Prog} {ρ : Sem.Env} {w : World} {n : Nat} {ty fty : Ty
   cases Sem.evalList (n + 1) P ρ w args <;> rfl
 
 theorem argsRel_two {env : Env} {η : Hp} {vs : List Val} {gvs : List GVal} {t1 t2 : Ty} (h : ArgsRel env η vs gvs [t1, t2]) :
-    ∃ v1 v2 g1 g2, vs = [v1, v2] ∧ gvs = [g1, g2] ∧ toGV env η v1 = some g1 ∧ HasTy env η v1 t1 ∧
-      toGV env η v2 = some g2 ∧ HasTy env η v2 t2 := by
+    ∃ v1 v2 g1 g2, vs = [v1, v2] ∧ gvs = [g1, g2] ∧ VRel env η v1 t1 g1 ∧ HasTy env η v1 t1 ∧
+      VRel env η v2 t2 g2 ∧ HasTy env η v2 t2 := by
   rcases vs with _ | ⟨v1, _ | ⟨v2, _ | ⟨v3, vs⟩⟩⟩ <;> rcases gvs with _ | ⟨g1, _ | ⟨g2, _ | ⟨g3, gs⟩⟩⟩ <;> simp [ArgsRel] at h
   exact ⟨v1, v2, g1, g2, rfl, rfl, h.1, h.2.1, h.2.2.1, h.2.2.2⟩
 
@@ -241,7 +235,7 @@ theorem refcall_sim {env : Env} {file : AFile} {G : List String} {P : Prog} {F :
         have hb : Sem.builtin "ref_get" [.ref l] w = some (.ok cv w) := by
           simp [Sem.builtin, hs0]
         simp only [hb]
-        have hgp : g = .ptr gl := by simp [toGV, hloc0] at hg; exact hg.symm
+        have hgp : g = .ptr gl := by simp [VRel, hloc0] at hg; exact hg
         subst hgp
         exact ⟨η, η.le_refl, gcv, gw, ev_call (ev_var_none hgo) (hgA gw) (ref_get_call (hl.refGo ty hrt) gw gl gcv hcell),
           hcvg, hcvt, hw, fun h => by cases h⟩
@@ -278,7 +272,7 @@ theorem refcall_sim {env : Env} {file : AFile} {G : List String} {P : Prog} {F :
               have hb : Sem.builtin "ref_set" [.ref l, v2] w = some (.ok .unit { w with store := w.store.set! l v2 }) := by
                 simp [Sem.builtin, hlt]
               simp only [hb]
-              have hgp : g1 = .ptr gl := by simp [toGV, hloc0] at hg1; exact hg1.symm
+              have hgp : g1 = .ptr gl := by simp [VRel, hloc0] at hg1; exact hg1
               subst hgp
               exact ⟨η, η.le_refl, .unit, _, ev_call (ev_var_none hgo) (hgA gw) (ref_set_call (hl.refGo e hrt) gw gl old g2 hcell),
                 rfl, trivial, hw', fun h => by cases h⟩
@@ -290,29 +284,29 @@ theorem refcall_sim {env : Env} {file : AFile} {G : List String} {P : Prog} {F :
 theorem Imm.ty_var (x : String) (t : Ty) : (Imm.var x t).ty = t := rfl
 
 theorem argsRel_three {env : Env} {η : Hp} {vs : List Val} {gvs : List GVal} {t1 t2 t3 : Ty} (h : ArgsRel env η vs gvs [t1, t2, t3]) :
-    ∃ v1 v2 v3 g1 g2 g3, vs = [v1, v2, v3] ∧ gvs = [g1, g2, g3] ∧ toGV env η v1 = some g1 ∧ HasTy env η v1 t1 ∧
-      toGV env η v2 = some g2 ∧ HasTy env η v2 t2 ∧ toGV env η v3 = some g3 ∧ HasTy env η v3 t3 := by
+    ∃ v1 v2 v3 g1 g2 g3, vs = [v1, v2, v3] ∧ gvs = [g1, g2, g3] ∧ VRel env η v1 t1 g1 ∧ HasTy env η v1 t1 ∧
+      VRel env η v2 t2 g2 ∧ HasTy env η v2 t2 ∧ VRel env η v3 t3 g3 ∧ HasTy env η v3 t3 := by
   rcases vs with _ | ⟨v1, _ | ⟨v2, _ | ⟨v3, _ | ⟨v4, vs⟩⟩⟩⟩ <;> rcases gvs with _ | ⟨g1, _ | ⟨g2, _ | ⟨g3, _ | ⟨g4, gs⟩⟩⟩⟩ <;>
     simp [ArgsRel] at h
   exact ⟨v1, v2, v3, g1, g2, g3, rfl, rfl, h.1, h.2.1, h.2.2.1, h.2.2.2.1, h.2.2.2.2.1, h.2.2.2.2.2⟩
 
 /-- a typed array value and its Go image -/
 theorem arrayV_inv {env : Env} {η : Hp} {v : Val} {g : GVal} {len : Nat} {e : Ty} (ht : HasTy env η v (.array len e))
-    (hg : toGV env η v = some g) :
-    ∃ vs gs, v = .array vs ∧ g = .array gs ∧ 1 ≤ len ∧ HasTys env η vs (List.replicate len e) ∧ toGVs env η vs = some gs := by
+    (hg : VRel env η v (.array len e) g) :
+    ∃ vs gs, v = .array vs ∧ g = .array gs ∧ 1 ≤ len ∧ HasTys env η vs (List.replicate len e) ∧
+      VRels env η vs (List.replicate len e) gs := by
   cases v <;> simp only [HasTy] at ht <;> try exact ht.elim
   rename_i vs
-  simp only [toGV] at hg
-  cases hgs : toGVs env η vs with
-  | none => rw [hgs] at hg; simp at hg
-  | some gs => rw [hgs] at hg; simp at hg; exact ⟨vs, gs, rfl, hg.symm, ht.1, ht.2, hgs⟩
+  simp only [VRel] at hg
+  obtain ⟨gs, hgs, rfl⟩ := hg
+  exact ⟨vs, gs, rfl, rfl, ht.1, ht.2, hgs⟩
 
 theorem intV_inv {env : Env} {η : Hp} {v : Val} {g : GVal} {t : Ty} (hit : intTy t = true) (ht : HasTy env η v t)
-    (hg : toGV env η v = some g) : ∃ b s x, v = .int b s x ∧ g = .int b s x := by
+    (hg : VRel env η v t g) : ∃ b s x, v = .int b s x ∧ g = .int b s x := by
   cases t <;> simp [intTy] at hit
   obtain ⟨x, rfl⟩ := hasTy_int ht
-  simp [toGV] at hg
-  exact ⟨_, _, x, rfl, hg.symm⟩
+  simp [VRel] at hg
+  exact ⟨_, _, x, rfl, hg⟩
 
 theorem arrcall_name {env : Env} {file : AFile} {Γ : Ctx} {name : String} {fty : Ty} {args : List Imm} {ty : Ty}
     (hfrag : arrCallOK env file G Γ (.var name fty) args ty = true) : rn name = name ∧ (name = "array_get" ∨ name = "array_set") := by
@@ -483,7 +477,7 @@ theorem arrcall_sim {env : Env} {file : AFile} {G : List String} {P : Prog} {F :
                 simp only [hb]
                 refine ⟨η, η.le_refl, .array (gs.set x.toNat gv), gw, ev_call (ev_var_none hgo) (hgA gw)
                   (arr_set_call (hl.arrGo len e hat) gw gs b s x gv (by rw [hlenG]; exact hoob)), ?_, ?_, hw, fun h => by cases h⟩
-                · simp [toGV, toGVs_set x.toNat hgs hgv]
+                · simp only [VRel]; exact ⟨_, toGVs_set x.toNat hgs hgv, rfl⟩
                 · simp only [HasTy]; exact ⟨hlen1, hasTys_replicate_set x.toNat hxs htv⟩
           · rw [if_neg h2] at hif; cases hif
       | _ => rw [haty] at hcase; cases hcase
@@ -539,6 +533,244 @@ theorem refcall_shape {env : Env} {file : AFile} {Γ : Ctx} {name : String} {fty
               by simp [calleesC, goCallee, hrn, hrty, hnb], hcase.1.1⟩
           | _ => rw [hrty] at hcase; cases hcase
       · rw [if_neg h3] at hcase; cases hcase
+
+/-! ### the `Vec` builtins -/
+
+theorem sem_evalList_one {P : Prog} {ρ : Sem.Env} {ea : Expr} {va : Val}
+    (ha : ∀ n w, Sem.eval (n + 1) P ρ w ea = .ok va w) (n : Nat) (w : World) :
+    Sem.evalList n P ρ w [ea] = .fail .fuel w ∨ Sem.evalList n P ρ w [ea] = .ok [va] w := by
+  cases n with
+  | zero => left; rw [Sem.evalList.eq_def]
+  | succ n =>
+    rw [Sem.evalList.eq_def]; simp only
+    rcases sem_imm_any ha (w := w) n with h | h
+    · left; rw [h]
+    · rw [h]; simp only
+      cases n with
+      | zero => left; rw [Sem.evalList.eq_def]
+      | succ n => right; rw [Sem.evalList.eq_def]
+
+theorem sem_evalList_two {P : Prog} {ρ : Sem.Env} {ea ei : Expr} {va vi : Val}
+    (ha : ∀ n w, Sem.eval (n + 1) P ρ w ea = .ok va w) (hi : ∀ n w, Sem.eval (n + 1) P ρ w ei = .ok vi w) (n : Nat) (w : World) :
+    Sem.evalList n P ρ w [ea, ei] = .fail .fuel w ∨ Sem.evalList n P ρ w [ea, ei] = .ok [va, vi] w := by
+  cases n with
+  | zero => left; rw [Sem.evalList.eq_def]
+  | succ n =>
+    rw [Sem.evalList.eq_def]; simp only
+    rcases sem_imm_any ha (w := w) n with h | h
+    · left; rw [h]
+    · rw [h]; simp only
+      rcases sem_evalList_one hi n w with h2 | h2
+      · left; rw [h2]
+      · right; rw [h2]
+
+/-- a typed vector value and its Go image: `nil`, or a slice without spare capacity over an immutable cell -/
+theorem vecV_inv {env : Env} {η : Hp} {v : Val} {g : GVal} {e : Ty} (ht : HasTy env η v (.vec e)) (hg : VRel env η v (.vec e) g) :
+    ∃ xs, v = .vec xs ∧ HasTys env η xs (List.replicate xs.length e) ∧
+      ((xs = [] ∧ g = .nilv) ∨
+       (xs ≠ [] ∧ ∃ loc gs, (loc, GVal.array gs) ∈ η.imm ∧ VRels env η xs (List.replicate xs.length e) gs ∧
+          g = .slice loc xs.length xs.length)) := by
+  cases v <;> simp only [HasTy] at ht <;> try exact ht.elim
+  rename_i xs
+  simp only [VRel] at hg
+  exact ⟨xs, rfl, ht, hg⟩
+
+theorem veccall_sim {env : Env} {file : AFile} {G : List String} {P : Prog} {F : GFile} (hl : Link env file G P F) (n : Nat)
+    (η : Hp) (Γ : Ctx) (ρ : Sem.Env) (w : World) (gρ : GEnv) (gw : GWorld) (Bad : List String)
+    (name : String) (fty : Ty) (args : List Imm) (ty : Ty)
+    (hfrag : vecCallOK env file G Γ (.var name fty) args ty = true) (hrel : EnvRel env η Γ ρ gρ) (hw : WRel env η w gw)
+    (hgood : ∀ y, y ∈ keys gρ → ¬ y ∈ Bad) (hfr : FnRel file G η gρ)
+    (hcal : ∀ x, x ∈ calleesC (Γ.map (·.1)) (.call (.var name fty) args ty) → x ∈ Bad) :
+    ConclV env η F (compileCExpr env (.call (.var name fty) args ty)) gρ gw ty false true w
+      (Sem.eval (n + 1) P ρ w (CExpr.call (.var name fty) args ty).toExpr) := by
+  simp only [vecCallOK, Bool.and_eq_true, beq_iff_eq] at hfrag
+  obtain ⟨⟨hloc, hrn⟩, hcase⟩ := hfrag
+  have hnone : lookupTy Γ name = none := by
+    cases hx : lookupTy Γ name with
+    | none => rfl
+    | some p => rw [hx] at hloc; simp at hloc
+  have hsrc : Sem.lookupEnv ρ name = none := hrel.2 name hnone
+  have hnb := lookupTy_none_nomem hnone
+  simp only [CExpr.toExpr, Imm.toExpr]
+  cases n with
+  | zero => rw [Sem.eval]; rw [Sem.eval]; trivial
+  | succ n =>
+  rw [sem_call_fn hsrc]
+  by_cases h1 : name = "vec_new"
+  · -- `vec_new()` is `nil`
+    subst h1
+    rw [if_pos rfl] at hcase
+    cases args with
+    | cons a rest => simp at hcase
+    | nil =>
+      cases ty <;> simp only at hcase <;> try (cases hcase; done)
+      rename_i e
+      have hshape : compileCExpr env (.call (.var "vec_new" fty) [] (.vec e)) = .nil (goTy (.vec e)) := by
+        simp [compileCExpr, compileCall, callee, hrn]
+      rw [hshape]
+      simp only [List.map_nil]
+      rw [Sem.evalList.eq_def]; simp only
+      rw [Sem.apply]; simp only [hl.vecSrc "vec_new" (by simp [vecNames])]
+      have hb : Sem.builtin "vec_new" [] w = some (.ok (.vec []) w) := rfl
+      simp only [hb]
+      exact ⟨η, η.le_refl, .nilv, gw, ev_nil, by simp [VRel], by simp [HasTy, HasTys], hw, fun h => by cases h⟩
+  · rw [if_neg h1] at hcase
+    by_cases h2 : name = "vec_push"
+    · -- `vec_push(v, x)` is `append(v, x)`: a fresh backing array
+      subst h2
+      rw [if_pos rfl] at hcase
+      cases ty <;> simp only at hcase <;> try (cases hcase; done)
+      rename_i e
+      simp only [Bool.and_eq_true] at hcase
+      obtain ⟨hargs, _⟩ := hcase
+      have hshape : compileCExpr env (.call (.var "vec_push" fty) args (.vec e)) =
+          .call (goTy (.vec e)) (.var "append" (goTy fty)) (compileImms env args) := by
+        simp [compileCExpr, compileCall, callee, hrn, Imm.ty]
+      rw [hshape]
+      have hbad : "append" ∈ Bad := hcal _ (by simp [calleesC, goCallee, hrn, hnb])
+      have hgo : lookupG gρ "append" = none := lookup_none_of_not_key (fun hk => hgood _ hk hbad)
+      obtain ⟨vs, gvs, hrelA, hgA, hsA⟩ := imms_both P hl.ty hrel hfr hargs
+      obtain ⟨va, vx, ga, gx, rfl, rfl, hga, hta, hgx, htx⟩ := argsRel_two hrelA
+      obtain ⟨xs, rfl, hxs, hcs⟩ := vecV_inv hta hga
+      rcases hsA (n + 1) w with h3 | h3
+      · rw [h3]; trivial
+      · rw [h3]; simp only
+        rw [Sem.apply]; simp only [hl.vecSrc "vec_push" (by simp [vecNames])]
+        have hb : Sem.builtin "vec_push" [.vec xs, vx] w = some (.ok (.vec (xs ++ [vx])) w) := rfl
+        simp only [hb]
+        rcases hcs with ⟨rfl, rfl⟩ | ⟨hne, loc, gs, hmem, hgs, rfl⟩
+        · -- onto `nil`
+          obtain ⟨hle, hw'⟩ := hw.allocImm (.array [gx])
+          refine ⟨_, hle, _, _, ev_call (ev_var_none hgo) (hgA gw) (call_append_nil hl.vecGo.append hw.cap), ?_, ?_, hw',
+            fun h => by cases h⟩
+          · simp only [VRel, List.nil_append, List.length_singleton]
+            refine Or.inr ⟨by simp, gw.heap.size, [gx], by simp, ?_, rfl⟩
+            simp only [List.replicate, VRels]
+            exact ⟨VRel_mono hle _ _ _ hgx, trivial⟩
+          · simp only [HasTy, List.nil_append, List.length_singleton, List.replicate, HasTys]
+            exact ⟨HasTy_mono hle _ _ htx, trivial⟩
+        · -- onto a full slice
+          have hcell : gw.heap[loc]? = some (.array gs) := (hw.imm _ _ hmem).1
+          have hlen : gs.length = xs.length := toGVs_length hgs
+          obtain ⟨hle, hw'⟩ := hw.allocImm (.array (gs.take xs.length ++ [gx]))
+          refine ⟨_, hle, _, _, ev_call (ev_var_none hgo) (hgA gw) (call_append_slice hl.vecGo.append hw.cap hcell), ?_, ?_, hw',
+            fun h => by cases h⟩
+          · have htake : gs.take xs.length = gs := by rw [← hlen]; exact List.take_length
+            simp only [VRel]
+            refine Or.inr ⟨by simp, gw.heap.size, gs ++ [gx], by simp [htake], ?_, by simp⟩
+            exact VRels_replicate_snoc (VRels_mono hle _ _ _ hgs) (VRel_mono hle _ _ _ hgx)
+          · simp only [HasTy]
+            exact hasTys_replicate_snoc (HasTys_mono hle _ _ hxs) (HasTy_mono hle _ _ htx)
+    · rw [if_neg h2] at hcase
+      by_cases h3 : name = "vec_get"
+      · -- `vec_get(v, i)` is `v[i]`
+        subst h3
+        rw [if_pos rfl] at hcase
+        cases args with
+        | nil => cases hcase
+        | cons a rest =>
+          cases rest with
+          | nil => cases hcase
+          | cons i rest =>
+            simp only [Bool.and_eq_true] at hcase
+            obtain ⟨⟨hint, hargs⟩, _⟩ := hcase
+            simp only [argsOK, Bool.and_eq_true] at hargs
+            obtain ⟨⟨ha, hta⟩, ⟨hi, _⟩, hrest⟩ := hargs
+            cases rest with
+            | cons r rs => simp [argsOK] at hrest
+            | nil =>
+              have hshape : compileCExpr env (.call (.var "vec_get" fty) [a, i] ty) =
+                  .index (goTy ty) (compileImm env a) (compileImm env i) := by
+                simp [compileCExpr, compileCall, callee, hrn, compileImms]
+              rw [hshape]
+              obtain ⟨va, ga, hsa, hgaE, hga, htya⟩ := imm_both P hl.ty ha hrel hfr
+              obtain ⟨vi, gi, hsi, hgiE, hgi, htyi⟩ := imm_both P hl.ty hi hrel hfr
+              rw [scalarEq_eq hta] at hga htya
+              obtain ⟨xs, rfl, hxs, hcs⟩ := vecV_inv htya hga
+              obtain ⟨b, s, x, rfl, rfl⟩ := intV_inv hint htyi hgi
+              simp only [List.map_cons, List.map_nil]
+              rcases sem_evalList_two hsa hsi (n + 1) w with h4 | h4
+              · rw [h4]; trivial
+              · rw [h4]; simp only
+                rw [Sem.apply]; simp only [hl.vecSrc "vec_get" (by simp [vecNames])]
+                by_cases hneg : x < 0
+                · have hb : Sem.builtin "vec_get" [.vec xs, .int b s x] w = some (.fail (.panic "index out of range") w) := by
+                    simp [Sem.builtin, hneg]
+                  simp only [hb]
+                  rcases hcs with ⟨rfl, rfl⟩ | ⟨hne, loc, gs, hmem, hgs, rfl⟩
+                  · exact ⟨η, η.le_refl, gw, ev_index_nil (hgaE gw) (hgiE gw), hw, rfl⟩
+                  · exact ⟨η, η.le_refl, gw, ev_index_slice_oob (hgaE gw) (hgiE gw) (Or.inl hneg), hw, rfl⟩
+                · rcases hcs with ⟨rfl, rfl⟩ | ⟨hne, loc, gs, hmem, hgs, rfl⟩
+                  · have hb : Sem.builtin "vec_get" [.vec [], .int b s x] w = some (.fail (.panic "index out of range") w) := by
+                      simp [Sem.builtin, hneg]
+                    simp only [hb]
+                    exact ⟨η, η.le_refl, gw, ev_index_nil (hgaE gw) (hgiE gw), hw, rfl⟩
+                  · rcases toGVs_get x.toNat hgs with ⟨hn1, hn2⟩ | ⟨v, g, hv1, hv2, hvg⟩
+                    · have hb : Sem.builtin "vec_get" [.vec xs, .int b s x] w = some (.fail (.panic "index out of range") w) := by
+                        simp [Sem.builtin, hneg, hn1]
+                      simp only [hb]
+                      have hge : x.toNat ≥ xs.length := by
+                        rcases Nat.lt_or_ge x.toNat xs.length with h | h
+                        · rw [List.getElem?_eq_getElem h] at hn1; cases hn1
+                        · exact h
+                      exact ⟨η, η.le_refl, gw, ev_index_slice_oob (hgaE gw) (hgiE gw) (Or.inr hge), hw, rfl⟩
+                    · have hb : Sem.builtin "vec_get" [.vec xs, .int b s x] w = some (.ok v w) := by
+                        simp [Sem.builtin, hneg, hv1]
+                      simp only [hb]
+                      have hlt : ¬ x.toNat ≥ xs.length := by
+                        intro hge
+                        rw [List.getElem?_eq_none hge] at hv1; cases hv1
+                      have hcell : gw.heap[loc]? = some (.array gs) := (hw.imm _ _ hmem).1
+                      exact ⟨η, η.le_refl, g, gw, ev_index_slice (hgaE gw) (hgiE gw) hneg hlt hcell hv2, hvg,
+                        hasTys_replicate_get x.toNat hxs hv1, hw, fun h => by cases h⟩
+      · rw [if_neg h3] at hcase
+        by_cases h4 : name = "vec_len"
+        · -- `vec_len(v)` is `int32(len(v))`
+          subst h4
+          rw [if_pos rfl] at hcase
+          cases args with
+          | nil => cases hcase
+          | cons a rest =>
+            simp only at hcase
+            cases haty : a.ty with
+            | vec e =>
+              rw [haty] at hcase; simp only [Bool.and_eq_true] at hcase
+              obtain ⟨⟨hargs, hty⟩, _⟩ := hcase
+              have hty' := scalarEq_eq hty; subst hty'
+              simp only [argsOK, Bool.and_eq_true] at hargs
+              obtain ⟨⟨ha, hta⟩, hrest⟩ := hargs
+              cases rest with
+              | cons r rs => simp [argsOK] at hrest
+              | nil =>
+                have hshape : compileCExpr env (.call (.var "vec_len" fty) [a] (.int 32 true)) =
+                    .call (.int 32 true) (.var "int32" (.func [.int 32 true] (.int 32 true)))
+                      [.call (.int 32 true) (.var "len" (.func [goTy a.ty] (.int 32 true))) [compileImm env a]] := by
+                  simp [compileCExpr, compileCall, callee, hrn, compileImms, goTy]
+                rw [hshape]
+                have hbad1 : "int32" ∈ Bad := hcal _ (by simp [calleesC, goCallee, hrn, hnb])
+                have hbad2 : "len" ∈ Bad := hcal _ (by simp [calleesC, goCallee, hrn, hnb])
+                have hgo1 : lookupG gρ "int32" = none := lookup_none_of_not_key (fun hk => hgood _ hk hbad1)
+                have hgo2 : lookupG gρ "len" = none := lookup_none_of_not_key (fun hk => hgood _ hk hbad2)
+                obtain ⟨va, ga, hsa, hgaE, hga, htya⟩ := imm_both P hl.ty ha hrel hfr
+                rw [haty] at hga htya
+                obtain ⟨xs, rfl, hxs, hcs⟩ := vecV_inv htya hga
+                simp only [List.map_cons, List.map_nil]
+                rcases sem_evalList_one hsa (n + 1) w with h5 | h5
+                · rw [h5]; trivial
+                · rw [h5]; simp only
+                  rw [Sem.apply]; simp only [hl.vecSrc "vec_len" (by simp [vecNames])]
+                  have hb : Sem.builtin "vec_len" [.vec xs] w = some (.ok (.int 32 true (Sem.wrap 32 true xs.length)) w) := rfl
+                  simp only [hb]
+                  have hlenE : EvS F gρ gw (.call (.int 32 true) (.var "len" (.func [goTy (.vec e)] (.int 32 true))) [compileImm env a])
+                      (.ok (.int 64 true xs.length) gw) := by
+                    rcases hcs with ⟨rfl, rfl⟩ | ⟨hne, loc, gs, hmem, hgs, rfl⟩
+                    · exact ev_call (ev_var_none hgo2) (evl_cons (hgaE gw) evl_nil) (call_len_nil hl.vecGo.len)
+                    · exact ev_call (ev_var_none hgo2) (evl_cons (hgaE gw) evl_nil) (call_len_slice hl.vecGo.len)
+                  rw [haty]
+                  exact ⟨η, η.le_refl, _, gw, ev_call (ev_var_none hgo1) (evl_cons hlenE evl_nil) (call_int32 hl.vecGo.int32),
+                    by simp [VRel], ⟨rfl, rfl⟩, hw, fun h => by cases h⟩
+            | _ => rw [haty] at hcase; cases hcase
+        · rw [if_neg h4] at hcase; cases hcase
 
 /-- the entries of the function table: functions of `G` under their own Go name, and the printing builtins -/
 theorem fnSigs_spec {file : AFile} {G : List String} {name : String} {ps : List Ty} {r : Ty}
@@ -598,7 +830,7 @@ theorem localcall_sim {env : Env} {file : AFile} {G : List String} {P : Prog} {F
     cases v <;> simp only [HasTy] at hht <;> try exact hht.elim
     rename_i name
     have hmem : (name, ps, ty) ∈ fnSigs file G := by rw [← hfr.eq]; exact List.mem_of_find?_eq_some hht
-    have hgv' : gv = .func (vn name) := by simp [toGV] at htg; exact htg.symm
+    have hgv' : gv = .func (vn name) := by simp [VRel] at htg; exact htg
     subst hgv'
     simp only [CExpr.toExpr, compileCExpr, Imm.toExpr, compileCall_local hsp hext']
     rw [Sem.eval]
@@ -677,7 +909,7 @@ theorem stepV {env : Env} {file : AFile} {G : List String} {P : Prog} {F : GFile
     obtain ⟨b, gb, hsb, hgb, h3b, h4b⟩ := imm_both P hl.ty hr' hrel hfr
     have htl : l.ty = r.ty := by
       simp only [binOK, Bool.and_eq_true] at hop; exact scalarEq_eq hop.1.1
-    rw [← htl] at h4b hop
+    rw [← htl] at h3b h4b hop
     simp only [CExpr.toExpr, compileCExpr, CExpr.annTy]
     by_cases hlog : Goml.C01.isLogic op = true
     · -- `&&` / `||` on booleans
@@ -729,8 +961,8 @@ theorem stepV {env : Env} {file : AFile} {G : List String} {P : Prog} {F : GFile
             simp only [binOK, Bool.and_eq_true] at hop
             obtain ⟨⟨_, hdom⟩, _⟩ := hop
             cases op <;> cases hlt : l.ty <;> rw [hlt] at hdom <;> simp [binDom, scalarTy] at hdom ⊢
-          have h3a' : Goml.C01.toG a = some ga := by rw [← toGV_scalar h4a hscl]; exact h3a
-          have h3b' : Goml.C01.toG b = some gb := by rw [← toGV_scalar h4b hscl]; exact h3b
+          have h3a' : Goml.C01.toG a = some ga := toGV_scalar h4a hscl h3a
+          have h3b' : Goml.C01.toG b = some gb := toGV_scalar h4b hscl h3b
           have hscr : scalarTy ty = true := by
             simp only [binOK, Bool.and_eq_true] at hop
             obtain ⟨⟨_, hdom⟩, hres⟩ := hop
@@ -740,7 +972,7 @@ theorem stepV {env : Env} {file : AFile} {G : List String} {P : Prog} {F : GFile
           · rw [hv]; simp only
             obtain ⟨gv, hgv, hgt⟩ := Goml.C01.binop_ok_agree op a b v ga gb hlog' h3a' h3b' hv
             rw [← gBin_eq_gop] at hgv
-            exact ⟨η, η.le_refl, gv, gw, ev_bin (by rw [isLogicG_gBin]; exact hlog') (hga gw) (hgb gw) hgv, by rw [toGV_scalar hvt hscr]; exact hgt, hvt, hw, fun _ => ⟨rfl, rfl⟩⟩
+            exact ⟨η, η.le_refl, gv, gw, ev_bin (by rw [isLogicG_gBin]; exact hlog') (hga gw) (hgb gw) hgv, (VRel_scalar hvt hscr).mpr hgt, hvt, hw, fun _ => ⟨rfl, rfl⟩⟩
           · rw [hk]; simp only
             have hgk := Goml.C01.binop_panic_agree op a b ga gb k hlog' h3a' h3b' hk
             rw [← gBin_eq_gop] at hgk
@@ -749,10 +981,11 @@ theorem stepV {env : Env} {file : AFile} {G : List String} {P : Prog} {F : GFile
     simp only [fragC, Bool.or_eq_true] at hfrag
     cases f with
     | var name fty =>
-      rcases hfrag with ((hfrag | hfrag) | hfrag) | hfrag
-      case inl.inl.inr => exact refcall_sim hl n η Γ ρ w gρ gw Bad name fty args ty hfrag hrel hw hgood hfr hcal
-      case inl.inr => exact arrcall_sim hl n η Γ ρ w gρ gw Bad name fty args ty hfrag hrel hw hgood hfr hcal
-      case inr => exact localcall_sim hl hu hb η Γ ρ w gρ gw name fty args ty hfrag hrel hw hfr
+      rcases hfrag with (((hfrag | hfrag) | hfrag) | hfrag) | hfrag
+      case inl.inl.inl.inr => exact refcall_sim hl n η Γ ρ w gρ gw Bad name fty args ty hfrag hrel hw hgood hfr hcal
+      case inl.inl.inr => exact arrcall_sim hl n η Γ ρ w gρ gw Bad name fty args ty hfrag hrel hw hgood hfr hcal
+      case inl.inr => exact localcall_sim hl hu hb η Γ ρ w gρ gw name fty args ty hfrag hrel hw hfr
+      case inr => exact veccall_sim hl n η Γ ρ w gρ gw Bad name fty args ty hfrag hrel hw hgood hfr hcal
       have hshape := compileCall_frag hfrag
       simp only [CExpr.toExpr, compileCExpr, CExpr.annTy, Imm.toExpr, hshape]
       simp only [callOK, Bool.and_eq_true, Bool.not_eq_true', beq_iff_eq] at hfrag
@@ -828,8 +1061,8 @@ theorem stepV {env : Env} {file : AFile} {G : List String} {P : Prog} {F : GFile
                   exact ⟨η1, hle1, gw', ev_call (ev_var_none hgo) (hgA gw) hc, h5, rfl⟩
                 | fuel => intro _; trivial
                 | stuck s => intro _; trivial
-    | prim p t => simp [callOK, refCallOK, arrCallOK, localCallOK] at hfrag
-    | tag i t => simp [callOK, refCallOK, arrCallOK, localCallOK] at hfrag
+    | prim p t => simp [callOK, refCallOK, arrCallOK, localCallOK, vecCallOK] at hfrag
+    | tag i t => simp [callOK, refCallOK, arrCallOK, localCallOK, vecCallOK] at hfrag
   | ite c t e ty => simp [isCtl] at hctl
   | «while» c b ty => simp [isCtl] at hctl
   | matchE s arms d ty => simp [isCtl] at hctl
@@ -889,7 +1122,6 @@ theorem stepV {env : Env} {file : AFile} {G : List String} {P : Prog} {F : GFile
       obtain ⟨hargs, htt⟩ := hfrag
       obtain ⟨vs, gvs, hrelA, hgF, hsA⟩ := tfields_both P hl.ty hrel hfr 0 hargs
       obtain ⟨h1, h2, _, hlen⟩ := toGVs_of_args hrelA
-      have hts := tysOfVals_hasTys vs ts h2
       have hshape : compileCExpr env (.tuple items (.tuple ts)) =
           .slit (.struct (goTypeNameFor (.tuple ts)) (goTyFields 0 ts)) (tupleFields 0 (compileImms env items)) := by
         simp [compileCExpr, tupleStructTy, goTy]
@@ -901,7 +1133,7 @@ theorem stepV {env : Env} {file : AFile} {G : List String} {P : Prog} {F : GFile
         have hgo := ev_slit_struct (name := goTypeNameFor (.tuple ts)) (tfs := goTyFields 0 ts) (hgF gw)
         rw [slit_tuple (hl.tupGo ts htt) hlen] at hgo
         refine ⟨η, η.le_refl, _, gw, hgo, ?_, ?_, hw, fun _ => ⟨rfl, rfl⟩⟩
-        · simp [toGV, hts, h1, hlen]
+        · simp only [VRel]; exact ⟨gvs, h1, by rw [hlen]⟩
         · simp only [HasTy]; exact h2
     | _ => exact absurd hfrag (by simp)
   | array items ty =>
@@ -920,7 +1152,7 @@ theorem stepV {env : Env} {file : AFile} {G : List String} {P : Prog} {F : GFile
       · rw [h3]; trivial
       · rw [h3]; simp only
         refine ⟨η, η.le_refl, .array gvs, gw, ev_alit_array (hgA gw), ?_, ?_, hw, fun _ => ⟨rfl, rfl⟩⟩
-        · simp [toGV, h1]
+        · simp only [VRel]; exact ⟨gvs, h1, rfl⟩
         · simp only [HasTy]; exact ⟨hlen1, h2⟩
     | _ => exact absurd hfrag (by simp)
   | cget e c idx ty =>
@@ -957,34 +1189,31 @@ theorem stepV {env : Env} {file : AFile} {G : List String} {P : Prog} {F : GFile
           | some t =>
             rw [hti] at hcase; simp only at hcase
             have hty' := scalarEq_eq hcase; subst hty'
-            simp only [toGV, hd] at h3
-            cases hgs : toGVs env η vs with
-            | none => rw [hgs] at h3; simp at h3
-            | some gs =>
-              rw [hgs] at h3; simp only [hvar, Option.some.injEq] at h3; subst h3
-              obtain ⟨vi', gi, hvi, hgi, hri, hti'⟩ := struct_field idx hgs hfields hti
-              have hlenG : gs.length = tys.length := by rw [toGVs_length hgs, hasTys_length hfields]
-              obtain ⟨_, _, _, _, hvs⟩ := good_enum hl.ty.closed hn
-              have hcf : cgetField env (.var x (.enum en)) (.enum en vn' vi) idx = some (fieldN idx, ty) := by
-                simp [cgetField, hd, hvar, hti]
-              simp only [CExpr.toExpr, compileCExpr, CExpr.annTy, hcf, Option.getD_some, Imm.toExpr]
-              rw [Sem.eval]
-              rcases sem_imm_any hs (w := w) n with h1 | h1
-              · simp only [Imm.toExpr] at h1; rw [h1]; trivial
-              · simp only [Imm.toExpr] at h1; rw [h1]; simp only [hvi]
-                have hidx : idx < tys.length := by
-                  rcases Nat.lt_or_ge idx tys.length with h | h
-                  · exact h
-                  · rw [List.getElem?_eq_none h] at hti; cases hti
-                have hni : (fieldNames 0 gs.length)[idx]? = some (fieldN idx) := by
-                  rw [hlenG]; have := fieldNames_get 0 tys.length idx hidx; simpa using this
-                have hd' := hd
-                obtain ⟨d2, hd2, _, _, hvs2⟩ := good_enum hl.ty.closed hn
-                rw [hd] at hd2; injection hd2 with hd2; subst hd2
-                have hnd := (hvs2 _ (List.mem_of_getElem? hvar)).2
-                rw [← hlenG] at hnd
-                have hlk2 := lookup_zip _ gs idx (fieldN idx) gi hnd hni hgi
-                exact ⟨η, η.le_refl, gi, gw, ev_field_struct (hg gw) hlk2, hri, hti', hw, fun _ => ⟨rfl, rfl⟩⟩
+            simp only [Imm.ty, VRel, hd, hvar] at h3
+            obtain ⟨gs, hgs, rfl⟩ := h3
+            obtain ⟨vi', gi, hvi, hgi, hri, hti'⟩ := struct_field idx hgs hfields hti
+            have hlenG : gs.length = tys.length := by rw [toGVs_length hgs, hasTys_length hfields]
+            obtain ⟨_, _, _, _, hvs⟩ := good_enum hl.ty.closed hn
+            have hcf : cgetField env (.var x (.enum en)) (.enum en vn' vi) idx = some (fieldN idx, ty) := by
+              simp [cgetField, hd, hvar, hti]
+            simp only [CExpr.toExpr, compileCExpr, CExpr.annTy, hcf, Option.getD_some, Imm.toExpr]
+            rw [Sem.eval]
+            rcases sem_imm_any hs (w := w) n with h1 | h1
+            · simp only [Imm.toExpr] at h1; rw [h1]; trivial
+            · simp only [Imm.toExpr] at h1; rw [h1]; simp only [hvi]
+              have hidx : idx < tys.length := by
+                rcases Nat.lt_or_ge idx tys.length with h | h
+                · exact h
+                · rw [List.getElem?_eq_none h] at hti; cases hti
+              have hni : (fieldNames 0 gs.length)[idx]? = some (fieldN idx) := by
+                rw [hlenG]; have := fieldNames_get 0 tys.length idx hidx; simpa using this
+              have hd' := hd
+              obtain ⟨d2, hd2, _, _, hvs2⟩ := good_enum hl.ty.closed hn
+              rw [hd] at hd2; injection hd2 with hd2; subst hd2
+              have hnd := (hvs2 _ (List.mem_of_getElem? hvar)).2
+              rw [← hlenG] at hnd
+              have hlk2 := lookup_zip _ gs idx (fieldN idx) gi hnd hni hgi
+              exact ⟨η, η.le_refl, gi, gw, ev_field_struct (hg gw) hlk2, hri, hti', hw, fun _ => ⟨rfl, rfl⟩⟩
     | struct sn =>
       simp only [fragC, Bool.and_eq_true] at hfrag
       obtain ⟨⟨he, hety⟩, hcase⟩ := hfrag
@@ -1004,21 +1233,18 @@ theorem stepV {env : Env} {file : AFile} {G : List String} {P : Prog} {F : GFile
       | some p =>
         rw [hf] at hcase; simp only [Option.map_some] at hcase
         have hty' := scalarEq_eq hcase
-        simp only [toGV, hd] at h3
-        cases hgs : toGVs env η vs with
-        | none => rw [hgs] at h3; simp at h3
-        | some gs =>
-          rw [hgs] at h3; simp only [Option.some.injEq] at h3; subst h3
-          have hti : (d.fields.map (·.2))[idx]? = some p.2 := by simp [hf]
-          obtain ⟨vi, gi, hvi, hgi, hri, hti'⟩ := struct_field idx hgs hfields hti
-          simp only [CExpr.toExpr, compileCExpr, CExpr.annTy, cgetField_struct hety' hd hgen, hf, Option.map_some, Option.getD_some]
-          rw [Sem.eval]
-          rcases sem_imm_any hs (w := w) n with h1 | h1
-          · rw [h1]; trivial
-          · rw [h1]; simp only [hvi]
-            have hni : (d.fields.map fun f => gid f.1)[idx]? = some (gid p.1) := by simp [hf]
-            have hlk := lookup_zip _ gs idx (gid p.1) gi hnd hni hgi
-            exact ⟨η, η.le_refl, gi, gw, ev_field_struct (hg gw) hlk, hri, hty' ▸ hti', hw, fun _ => ⟨rfl, rfl⟩⟩
+        simp only [VRel, hd] at h3
+        obtain ⟨gs, hgs, rfl⟩ := h3
+        have hti : (d.fields.map (·.2))[idx]? = some p.2 := by simp [hf]
+        obtain ⟨vi, gi, hvi, hgi, hri, hti'⟩ := struct_field idx hgs hfields hti
+        simp only [CExpr.toExpr, compileCExpr, CExpr.annTy, cgetField_struct hety' hd hgen, hf, Option.map_some, Option.getD_some]
+        rw [Sem.eval]
+        rcases sem_imm_any hs (w := w) n with h1 | h1
+        · rw [h1]; trivial
+        · rw [h1]; simp only [hvi]
+          have hni : (d.fields.map fun f => gid f.1)[idx]? = some (gid p.1) := by simp [hf]
+          have hlk := lookup_zip _ gs idx (gid p.1) gi hnd hni hgi
+          exact ⟨η, η.le_refl, gi, gw, ev_field_struct (hg gw) hlk, hty' ▸ hri, hty' ▸ hti', hw, fun _ => ⟨rfl, rfl⟩⟩
   | toDyn tr forTy e ty => simp [fragC] at hfrag
   | dynCall tr m recv args ty => simp [fragC] at hfrag
   | go e ty => simp [fragC] at hfrag
@@ -1028,7 +1254,7 @@ theorem stepV {env : Env} {file : AFile} {G : List String} {P : Prog} {F : GFile
     obtain ⟨v, gv, hs, hg, h3, h4⟩ := imm_both P hl.ty he hrel hfr
     cases hety : e.ty with
     | tuple ts =>
-      rw [hety] at hcase h4; simp only [Bool.and_eq_true] at hcase
+      rw [hety] at hcase h3 h4; simp only [Bool.and_eq_true] at hcase
       obtain ⟨⟨_, hnd0⟩, hidx⟩ := hcase
       have hnd := of_decide_eq_true hnd0
       cases hti : ts[idx]? with
@@ -1038,30 +1264,24 @@ theorem stepV {env : Env} {file : AFile} {G : List String} {P : Prog} {F : GFile
         have hty' := scalarEq_eq hidx; subst hty'
         cases v <;> simp only [HasTy] at h4 <;> try exact h4.elim
         rename_i vs
-        simp only [toGV] at h3
-        cases hts : tysOfVals η vs with
-        | none => rw [hts] at h3; simp at h3
-        | some ts' =>
-          cases hgs : toGVs env η vs with
-          | none => rw [hts, hgs] at h3; simp at h3
-          | some gs =>
-            rw [hts, hgs] at h3; simp only [Option.some.injEq] at h3; subst h3
-            obtain ⟨vi, gi, hvi, hgi, hri, hti'⟩ := struct_field idx hgs h4 hti
-            have hlenG : gs.length = ts.length := by rw [toGVs_length hgs, hasTys_length h4]
-            simp only [CExpr.toExpr, compileCExpr, CExpr.annTy]
-            rw [Sem.eval]
-            rcases sem_imm_any hs (w := w) n with h1 | h1
-            · rw [h1]; trivial
-            · rw [h1]; simp only [hvi]
-              have hidxlt : idx < ts.length := by
-                rcases Nat.lt_or_ge idx ts.length with h | h
-                · exact h
-                · rw [List.getElem?_eq_none h] at hti; cases hti
-              have hni : (fieldNames 0 gs.length)[idx]? = some (fieldN idx) := by
-                rw [hlenG]; have := fieldNames_get 0 ts.length idx hidxlt; simpa using this
-              rw [← hlenG] at hnd
-              have hlk2 := lookup_zip _ gs idx (fieldN idx) gi hnd hni hgi
-              exact ⟨η, η.le_refl, gi, gw, ev_field_struct (hg gw) hlk2, hri, hti', hw, fun _ => ⟨rfl, rfl⟩⟩
+        simp only [VRel] at h3
+        obtain ⟨gs, hgs, rfl⟩ := h3
+        obtain ⟨vi, gi, hvi, hgi, hri, hti'⟩ := struct_field idx hgs h4 hti
+        have hlenG : gs.length = ts.length := by rw [toGVs_length hgs, hasTys_length h4]
+        simp only [CExpr.toExpr, compileCExpr, CExpr.annTy]
+        rw [Sem.eval]
+        rcases sem_imm_any hs (w := w) n with h1 | h1
+        · rw [h1]; trivial
+        · rw [h1]; simp only [hvi]
+          have hidxlt : idx < ts.length := by
+            rcases Nat.lt_or_ge idx ts.length with h | h
+            · exact h
+            · rw [List.getElem?_eq_none h] at hti; cases hti
+          have hni : (fieldNames 0 gs.length)[idx]? = some (fieldN idx) := by
+            rw [hlenG]; have := fieldNames_get 0 ts.length idx hidxlt; simpa using this
+          rw [← hlenG] at hnd
+          have hlk2 := lookup_zip _ gs idx (fieldN idx) gi hnd hni hgi
+          exact ⟨η, η.le_refl, gi, gw, ev_field_struct (hg gw) hlk2, hri, hti', hw, fun _ => ⟨rfl, rfl⟩⟩
     | _ => rw [hety] at hcase; exact absurd hcase (by simp)
 
 end Goml.GoComp
